@@ -211,6 +211,10 @@ def mutations(subject, rng):
         mk("shots-" + str(bad), shots_override=bad)
     if not _supports_none(subject):
         mk("shots-none-unsupported", shots_override=None)
+    import piquasso as pq
+
+    if pq.JaxConnector not in spec.simulator_class(sim)._supported_connector_classes():
+        mk("unsupported-connector", connector="unsupported")
     mk("initial-state-wrong-class", initial_state="wrong-class")
     mk("initial-state-wrong-width", initial_state="wrong-width")
     # documented parameter rules
@@ -304,7 +308,13 @@ def judge_refusal(sc):
         try:
             prog = spec.build_program(subject["program"], subject.get("build", "list"))
             cls = ins.instrumented_class(spec.simulator_class(subject["sim"]), mon)
-            sim = cls(d=subject["d"], config=spec.build_config(subject.get("config", {})))
+            connector = None
+            if sc.get("connector") == "unsupported":
+                # a built-in connector this simulator does not list as supported
+                base = spec.simulator_class(subject["sim"])
+                assert pq.JaxConnector not in base._supported_connector_classes()
+                connector = pq.JaxConnector()  # (TensorflowConnector would do too, but importing TensorFlow costs seconds per worker)
+            sim = cls(d=subject["d"], config=spec.build_config(subject.get("config", {})), connector=connector)
             mon.watch(prog)
             kwargs = {}
             init = sc.get("initial_state")
